@@ -3,6 +3,8 @@
 // `narena` bytes: every size from 0 up to what the step needs (step 8) makes a different allocation the
 // first to fail.  Runs in the ASan variant: the arena is an exact-size heap block, unused arena is poisoned
 // by the engine itself (mjUSEASAN), so any write outside or read of unallocated arena is reported.
+#include <algorithm>
+
 #include "hist.h"
 
 using namespace nd;
@@ -62,23 +64,31 @@ int main(int argc, char** argv) {
       for (size_t z = top > 1024 ? top - 1024 : 0; z <= top; z += 8) sizes.push_back(z);
     }
     bool exhaustive = (long)(top / 8) <= max_exec;
+    // the declared memory need not be a multiple of the allocation alignment: shift the whole sweep by a seeded 0..7 bytes, so that
+    // an allocation whose padding straddles the end of the arena is reached as well
+    size_t off = r.chance(0.4) ? 0 : (size_t)r.range(1, 7);
+    for (auto& z : sizes) z += off;
+    count(off ? "cases_with_unaligned_arena_sizes" : "cases_with_aligned_arena_sizes");
     mjModel* m2 = mj_copyModel(nullptr, m);
     uint64_t sig = fnv_str(mdesc);
     long n_ok = 0, n_err = 0, n_warn = 0;
     std::set<std::string> first_errors;
-    for (size_t z : sizes) {
+    // one faulted execution; returns a coarse outcome signature (used to find the sizes where the outcome changes)
+    auto run_size = [&](size_t z) -> uint64_t {
+      uint64_t out = 0;
       m2->narena = z;
       char sc[64]; snprintf(sc, sizeof sc, " narena=%zu", z);
       g_scenario = mdesc + sc;
       mjData* d = nullptr;
       bool e0 = ND_GUARD({ d = mj_makeData(m2); });
-      if (e0 || !d) { n_err++; count("makeData_rejected_size"); continue; }
-      if ((size_t)d->narena != z) { mu::dispose(d); count("narena_adjusted_by_makeData"); continue; }
+      if (e0 || !d) { n_err++; count("makeData_rejected_size"); return 1; }
+      if ((size_t)d->narena != z) { mu::dispose(d); count("narena_adjusted_by_makeData"); return 2; }
       bool e = ND_GUARD({ mj_forward(m2, d); });
       count("faulted_executions");
       if (e) {
         n_err++;
         std::string msg(g_lasterr); size_t p = msg.find('\n'); first_errors.insert(msg.substr(0, std::min<size_t>(p, 60)));
+        out = fnv_str(msg.substr(0, std::min<size_t>(p, 40)), 3);
       } else {
         // consistent truncated set
         int wc = d->warning[mjWARN_CONTACTFULL].number, wk = d->warning[mjWARN_CNSTRFULL].number;
@@ -87,6 +97,7 @@ int main(int argc, char** argv) {
         if (d->ncon == ref.ncon && d->nefc < ref.nefc && !wk && !wc) violation("silent-truncation", "narena=%zu: %d of %d constraint rows but no warning was raised", z, d->nefc, ref.nefc);
         if (d->ncon == ref.ncon && d->nefc == ref.nefc && d->nisland < ref.nisland && !wk) violation("silent-truncation", "narena=%zu: %d of %d islands but no warning was raised", z, d->nisland, ref.nisland);
         if (wc || wk) n_warn++; else n_ok++;
+        { int o[5] = {wc > 0, wk > 0, d->ncon, d->nefc, d->nisland}; out = fnv(o, sizeof o, 4); }
         for (int i = 0; i < d->ncon; i++) {
           const mjContact* c = d->contact + i;
           if (!in_arena(d, c, sizeof *c)) violation("out-of-arena", "narena=%zu: contact %d lies outside the arena", z, i);
@@ -110,7 +121,18 @@ int main(int argc, char** argv) {
       }
       mu::dispose(d);
       sig = fnv(&z, sizeof z, sig);
-    }
+      return out;
+    };
+    // sweep, then every byte size between two swept sizes whose outcome differs (the boundary of each allocation site, byte exact)
+    std::sort(sizes.begin(), sizes.end());
+    sizes.erase(std::unique(sizes.begin(), sizes.end()), sizes.end());
+    std::vector<uint64_t> outs;
+    for (size_t z : sizes) outs.push_back(run_size(z));
+    long nfine = 0;
+    for (size_t i = 1; i < sizes.size() && nfine < 1500; i++)
+      if (outs[i] != outs[i - 1] && sizes[i] - sizes[i - 1] <= 8)
+        for (size_t z = sizes[i - 1] + 1; z < sizes[i]; z++) { run_size(z); nfine++; }
+    count("byte_exact_boundary_sizes", nfine);
     count("executions_returned_clean", n_ok); count("executions_with_warning", n_warn); count("executions_with_caught_error", n_err);
     if (exhaustive) count("models_swept_exhaustively"); else count("models_swept_by_sample");
     count((std::string("family_") + kFam[fam]).c_str());
